@@ -11,6 +11,7 @@ CONSTANTS
   Mutate = FALSE
   Dedup = TRUE
   Validate = TRUE
+  AllowUnrigged = FALSE
 SPECIFICATION Spec
 INVARIANTS L2Sampler
 CHECK_DEADLOCK FALSE
